@@ -341,6 +341,38 @@ def history_cases(only=None):
 N_HISTORY = 9
 
 
+def former_view_terminal_cases(only=None):
+    """`backward(g)` called on a tensor that *was* a view in an earlier, finished epoch (its graph is cleared, its base
+    lingers): it is the terminal of a new graph of its own, so its gradient is the seed, as for any other tensor.
+    -> [(name, message)]"""
+    out = []
+    VIEWS = [("x[::2]", lambda x: x[::2]), ("x.T", lambda x: x.T), ("x.reshape(-1)", lambda x: x.reshape(-1)), ("x[1]", lambda x: x[1])]
+    SEEDS = [("none", lambda v: None), ("scalar", lambda v: 3.0), ("array", lambda v: np.arange(float(v.size)).reshape(v.shape) + 1),
+             ("f32-array", lambda v: (np.arange(float(v.size)).reshape(v.shape) + 1).astype(np.float32))]
+    for (vn, view), (sn, mkseed), first in [(a, b, c) for a in VIEWS for b in SEEDS for c in ("through-view", "through-base")]:
+        name = f"former-view-terminal|{vn}|{sn}|{first}"
+        if only is not None and name != only:
+            continue
+        x = mg.tensor(np.arange(12.0).reshape(4, 3) + 1)
+        v = view(x)
+        try:
+            if first == "through-view":
+                (v * 1.0).sum().backward()
+            else:
+                ((v * 1.0).sum() + (x * 2.0).sum()).backward()
+            g = mkseed(v)
+            v.backward(g) if g is not None else v.backward()
+        except Exception as e:  # noqa: BLE001
+            out.append((name, f"raised {type(e).__name__}: {str(e)[:80]}"))
+            continue
+        exp = np.ones(v.shape) if g is None else np.broadcast_to(np.asarray(g, dtype=v.dtype), v.shape)
+        got = v.grad
+        if got is None or got.shape != v.shape or got.dtype != v.dtype or not np.array_equal(got, exp):
+            out.append((name, f"v = {vn}; an earlier backward() finished; v.backward({sn} seed): v.grad is "
+                        f"{None if got is None else (str(got.dtype), got.tolist())}, the seed gives {exp.tolist()}"))
+    return out
+
+
 def nontrivial(prog):
     return len(prog) >= 5
 
@@ -383,6 +415,15 @@ def run(ctx: Ctx) -> Outcome:
     out.evaluations += N_HISTORY
     for k in range(N_HISTORY):
         out.nontrivial.add(stable_hash(["history", k]))
+    fseen = set()
+    for name, msg in former_view_terminal_cases():
+        fam = name.split("|")[1]
+        if fam not in fseen:
+            fseen.add(fam)
+            out.violations.append(Violation(f"C14|seeded-former-view|{fam}", f"{name}: {msg}", {"kind": "former-view", "name": name}))
+    out.evaluations += 32
+    for k in range(32):
+        out.nontrivial.add(stable_hash(["former-view", k]))
     out.stats["skipped_layer_cases"] = sorted({f"{r['name']}:{r['dtype']}:{r['skipped']}" for r in res if r.get("skipped")})
     return out
 
@@ -409,6 +450,10 @@ def check_witness(w):
 
 def replay(data) -> bool:
     r = data["replay"]
+    if r.get("kind") == "former-view":
+        res = former_view_terminal_cases(only=r["name"])
+        print(res)
+        return bool(res)
     if r.get("kind") == "history":
         res = history_cases(only=r["name"])
         print(res)
